@@ -51,6 +51,9 @@ func runFixtures(f lib.Flags, res *lib.Result, drv *lib.Driver) {
 		net  *networks.Network
 		b    *lib.Bundle
 		skip bool
+		// a variant of the fixture in which exactly the sequencer address is changed: must SanityCheckNewHeight refuse it?
+		variant    string
+		mustReject bool
 	}
 	var verdictFixtures []vfix
 	maxTx := f.Scale(60, 1000)
@@ -135,6 +138,35 @@ func runFixtures(f lib.Flags, res *lib.Result, drv *lib.Driver) {
 			verdictFixtures = append(verdictFixtures, vfix{desc: name + "/" + base + " (" + format + ")", net: net, skip: !verifiable,
 				b: &lib.Bundle{Block: b, SU: &core.StateUpdate{BlockHash: b.Hash, NewRoot: b.GlobalStateRoot, OldRoot: &felt.Zero, StateDiff: sd},
 					Classes: map[felt.Felt]core.ClassDefinition{}}})
+			// every transition of the sequencer address on the real-network blocks of the post-0.7 Pedersen
+			// format (mainnet 833, 1059, … carry none: their hash commits the zero / the fallback address)
+			if format == "post07" && verifiable {
+				fb := net.BlockHashMetaInfo.FallBackSequencerAddress
+				for _, v := range []struct {
+					name string
+					val  *felt.Felt
+				}{{"arbitrary", lib.F(0x123456)}, {"zero", lib.F(0)}, {"fallback", fb}, {"nil", nil}} {
+					if (v.val == nil) == (b.SequencerAddress == nil) && (v.val == nil || v.val.Equal(b.SequencerAddress)) {
+						continue
+					}
+					nb := lib.DeepCopy(b).(*core.Block)
+					if v.val == nil {
+						nb.SequencerAddress = nil
+					} else {
+						nb.SequencerAddress = new(felt.Felt).Set(v.val)
+					}
+					must := true
+					switch {
+					case b.SequencerAddress == nil && v.name != "arbitrary":
+						must = false // one of zero / fallback IS the address the hash commits
+					case b.SequencerAddress != nil && v.val == nil && (b.SequencerAddress.IsZero() || (fb != nil && b.SequencerAddress.Equal(fb))):
+						must = false
+					}
+					verdictFixtures = append(verdictFixtures, vfix{desc: name + "/" + base + " (" + format + ") sequencer->" + v.name, net: net, variant: v.name, mustReject: must,
+						b: &lib.Bundle{Block: nb, SU: &core.StateUpdate{BlockHash: b.Hash, NewRoot: b.GlobalStateRoot, OldRoot: &felt.Zero, StateDiff: sd},
+							Classes: map[felt.Felt]core.ClassDefinition{}}})
+				}
+			}
 			for _, o := range overrides {
 				impl, _ := realBlockHash(b, sd, net, o)
 				cases = append(cases, fx{desc: fmt.Sprintf("fixture %s/%s block (%s)", name, base, format), line: bhLine(net, o, b, sd),
@@ -178,6 +210,14 @@ func runFixtures(f lib.Flags, res *lib.Result, drv *lib.Driver) {
 		}
 		if (realErr == nil) != (failing == 0) {
 			res.Mismatch(lib.Mismatch{Sig: "fixture-verdict", Input: vf.desc, Model: model, Impl: fmt.Sprint(realErr)})
+		}
+		if vf.variant != "" {
+			res.Hit("fixture-sequencer-transition-" + vf.variant)
+			if vf.mustReject && realErr == nil {
+				res.Violate(lib.Violation{Sig: "tampered-block-accepted:fixture:sequencer-address",
+					What:   "real-network block " + vf.desc + ": the header's SequencerAddress was replaced by a value the block hash does not commit and SanityCheckNewHeight still accepts the block (the fallback-sequencer loop of VerifyBlockHash must try the zero / fallback address only for a header WITHOUT address)",
+					Replay: map[string]any{"case": "fixture-sequencer", "fixture": vf.desc, "variant": vf.variant}})
+			}
 		}
 	}
 
